@@ -30,7 +30,7 @@ PROPS["C02"] = {
               'the programs are pinned to the regenerated lock skeletons of the source (C02_skel_*, C02_send_path_functions). (B) C02_seq - in the sequential session model '
               '(the one the correspondence check compares with the real session event by event) for ALL configurations and ALL event histories: every save happens at the tracked next '
               'outbound number which then advances by one, reset => 1, the tracked number is the store\'s at the end, and with persistence every first-time write (admin or application) '
-              'of number n / MsgType k comes after the store saved (n,k). SAMPLED, not proved: schedules of the real engine (family conc: real session.run() goroutine, 4-32 concurrent '
+              'of number n / MsgType k comes after the store saved (n,k); C02_seq_epoch - for histories in which the application does not itself submit a reset Logon, first-time writes are strictly increasing per epoch and happen only after a save since the last reset; C02_seq_flush_transmits_all - one flush of a logged-on connected session writes the whole queue. SAMPLED, not proved: schedules of the real engine (family conc: real session.run() goroutine, 4-32 concurrent '
               'senders, scripted peer with ResendRequests / TestRequests / Heartbeats, memory and file store; MonitorC02 + final store + "every number handed out while logged on is '
               'transmitted" evaluated on the observed events). Liveness is only sampled. SQL store not run (no driver offline). Byte identity of stored vs sent message belongs to C10/C11.'),
     "note": ('Lean kernel + propext/Classical.choice/Quot.sound. ASSUMED: the Go memory model and sync.Mutex / sync.RWMutex semantics as modelled (lockS enabled iff no holder, rlockR iff no writer, '
@@ -41,10 +41,10 @@ PROPS["C02"] = {
              'for a failing round); the sequential model is tied by the sess correspondence (store mutations, wire writes, sender counter per event). Defect fixed on the way: '
              'handleLogon / Connect reset the store outside sendMutex and without dropping the queue (repo commit "fix: Logon-triggered sequence resets drop the send queue under the send lock").'),
     "rule": ('sess: see C01 (projection: store save/incS/setS/reset items, wire writes, sender counter). conc: one case = one stress round of the real engine: store mem|file (1/8), '
-             'persistence on (4/5), 4/8/16/32 sender goroutines, 120-360 sends (thorough 300-1500), senders started before the Logon in 1/4 of the rounds, Logon-triggered reset '
+             'persistence on (4/5), 4/8/16/32 sender goroutines, 120-360 sends (thorough 300-1500), senders started before the Logon in 1/4 of the rounds, session is the initiator in 1/4, Logon-triggered reset '
              '(peer 141=Y or ResetOnLogon) in 1/3, 0-3 ResendRequests over ranges already seen, 0-3 TestRequests, 0-2 Heartbeats at pseudo-random points, outbound channel capacity 0/1/4/64, '
              'Gosched / microsecond sleeps from the case PRNG; rounds run in a worker process so that an engine that corrupts memory is an observation (crashed), not a harness failure; '
-             'distinct = distinct (store, persist, early, reset, senders, replay seen) shapes'),
+             'a corpus of 12 rounds (parameter sets on which the unchanged tree or the sanity mutants failed) runs first; distinct = distinct (store, persist, early, reset, senders, replay seen) shapes'),
     "assumptions": ["Go memory model, sync.Mutex / sync.RWMutex semantics, step granularity (see note)",
                     "schedules of the real engine are sampled by the stress family, never enumerated; a stress round is not replayable as a schedule - the recorded observation line is what the monitor judges",
                     "memory store semantics for the sequential model's store; file store exercised in 1/8 of the stress rounds; SQL store not exercised"],
